@@ -263,6 +263,9 @@ def replay_parallel(ctx, binpath, run, doc, tag, nproc=4, env=None, timeout=1500
             raise vf.Infra("replay harness %s failed rc=%s:\n%s" % (run, r.rc, "\n".join(r.out.splitlines()[-40:])))
         summ.append(s[0])
         mism.extend(r.of("mismatch"))
+    stalls = sum(s.get("stalls", 0) for s in summ)
+    if stalls and not mism:   # a stalled driver alone is never a verdict
+        raise vf.Infra("replay harness %s: %d paths stalled (no holding point reached) and no mismatch was observed" % (run, stalls))
     ctx.log("replay %s: %d processes, %d paths, %d steps, %d mismatches, %.1fs" % (
         tag, len(files), sum(s["paths"] for s in summ), sum(s["steps"] for s in summ), len(mism),
         max(r.wall for r in results)))
